@@ -4,20 +4,29 @@
 pub mod inp;
 pub mod util;
 pub mod hists;
+pub mod types;
 pub mod c06;
 pub mod c07;
+pub mod c11;
 pub mod c12;
 pub mod c13;
 pub mod c14;
 pub mod c15;
+pub mod c16;
+pub mod c17;
+pub mod c20;
 
 pub fn registry() -> Vec<(&'static str, &'static [(&'static str, fn(&mut inp::VecInp))])> {
     vec![
         ("c06", c06::HARNESSES),
         ("c07", c07::HARNESSES),
+        ("c11", c11::HARNESSES),
         ("c12", c12::HARNESSES),
         ("c13", c13::HARNESSES),
         ("c14", c14::HARNESSES),
         ("c15", c15::HARNESSES),
+        ("c16", c16::HARNESSES),
+        ("c17", c17::HARNESSES),
+        ("c20", c20::HARNESSES),
     ]
 }
